@@ -54,7 +54,9 @@ pub struct Ctx {
     pub scale: f64,
     pub lane: String,
     pub replay: Option<(String, u64)>,
-    pub case_timeout_s: u64,
+    /// per-case watchdog budget in seconds (already multiplied by the lane's slow-down factor)
+    case_timeout_s: AtomicU64,
+    lane_factor: u64,
     pub verif_dir: String,
     /// (i, n): only cases with idx % n == i are run (parallel sharding of slow lanes)
     pub shard: (u64, u64),
@@ -139,13 +141,30 @@ impl Ctx {
             scale,
             lane: lane.to_string(),
             replay: None,
-            case_timeout_s: 60,
+            case_timeout_s: AtomicU64::new(60 * Self::lane_factor_of(lane)),
+            lane_factor: Self::lane_factor_of(lane),
             shard: (0, 1),
             verif_dir: std::env::var("VERIF_DIR").unwrap_or_else(|_| "/verif".to_string()),
             state: Mutex::new(State::default()),
             stop: AtomicBool::new(false),
             start: Instant::now(),
         }
+    }
+
+    fn lane_factor_of(lane: &str) -> u64 {
+        match lane {
+            "tsan" => 12,
+            "asan" => 4,
+            "relchk" => 2,
+            "memcheck" => 60,
+            _ => 1,
+        }
+    }
+
+    /// watchdog budget for the cases of the following groups: `secs` at native speed, scaled by the
+    /// lane's slow-down factor. The watchdog only decides "inconclusive, replay alone"; it is never a verdict.
+    pub fn set_case_timeout(&self, secs: u64) {
+        self.case_timeout_s.store(secs * self.lane_factor, Ordering::SeqCst);
     }
 
     pub fn is_miri(&self) -> bool {
@@ -339,12 +358,14 @@ impl Ctx {
                     let now = self.start.elapsed().as_millis() as u64 + 1;
                     for r in running.iter() {
                         let st = r.0.load(Ordering::SeqCst);
-                        if st != 0 && now > st && now - st > self.case_timeout_s * 1000 {
+                        // a replayed case (confirmation run) gets 10x the budget it had in the sweep
+                        let budget = self.case_timeout_s.load(Ordering::SeqCst) * if verbose { 10 } else { 1 };
+                        if st != 0 && now > st && now - st > budget * 1000 {
                             let idx = r.1.load(Ordering::SeqCst);
                             let path = self.write_replay(group, idx, "watchdog: case exceeded its time budget", "timeout");
                             println!(
-                                "TIMEOUT property={} lane={} group={} case={} replay={}",
-                                self.prop, self.lane, group, idx, path
+                                "TIMEOUT property={} lane={} group={} case={} budget_s={} replay={}",
+                                self.prop, self.lane, group, idx, budget, path
                             );
                             std::process::exit(4);
                         }
